@@ -147,7 +147,11 @@ def _run_population(case, rec):
     algo = case["algo"]
     kw = {"share_encoders": False} if algo in zoo.HAS_SHARE_ENCODERS else {}
     agentops.seed_all(case["seed"])
-    pop = [zoo.make_agent(algo, case["obs"], index=i, hp_config=zoo.tiny_hp_config(algo), **kw) for i in range(2)]
+    # ONE HyperparameterConfig object for the whole population (what Algo.population / create_population hand out); the
+    # members then receive different numbers of RL-hyperparameter mutations, so their values drift apart
+    shared_cfg = zoo.tiny_hp_config(algo)
+    pop = [zoo.make_agent(algo, case["obs"], index=i, hp_config=shared_cfg, **kw) for i in range(3)]
+    m_hp = agentops.make_mutations("rl_hp", seed=case["seed"] % 99991)
     tmpdir = tempfile.mkdtemp(prefix="vf_c07p_")
     base = os.path.join(tmpdir, "pop")
     try:
@@ -155,6 +159,9 @@ def _run_population(case, rec):
             for j, ag in enumerate(pop):
                 agentops.seed_all(case["seed"] + 10 * rnd + j)
                 zoo.learn(ag, batch_seed=case["seed"] % 997 + 10 * rnd + j)
+                for _rep in range(j + rnd):
+                    pop[j] = ag = m_hp.mutation([ag])[0]
+                    rec.hit("population_member_hp_mutations")
                 if case["steps_move"] or rnd == 0:
                     ag.steps[-1] += 5  # steps_move=False: a second save at an unchanged step count
             with contextlib.redirect_stdout(io.StringIO()):
